@@ -328,6 +328,7 @@ func (cw *verifC14World) request(cs *verifC14Sess, kind, t string, hard bool) {
 		cs.vs.s.dispatchRaw(b)
 	}()
 	atomic.StoreInt32(&cs.inDisp, 0)
+	cs.add(verifC14Event{"e": "ret", "id": id}) // dispatch came back to the read loop
 }
 
 // ---------------------------------------------------------------- programs
@@ -364,10 +365,28 @@ type verifC14Client struct {
 	cur  *verifC14Sess
 	done chan struct{}
 	opAt atomic.Value // description of the op being executed
+	goid int64
+}
+
+func verifC14Goid() int64 {
+	buf := make([]byte, 64)
+	n := runtime.Stack(buf, false)
+	m := verifC14GoHdr.FindStringSubmatch(strings.SplitN(string(buf[:n]), "\n", 2)[0] + ":")
+	if m == nil {
+		f := strings.Fields(string(buf[:n]))
+		if len(f) > 1 {
+			v, _ := strconv.ParseInt(f[1], 10, 64)
+			return v
+		}
+		return 0
+	}
+	v, _ := strconv.ParseInt(m[1], 10, 64)
+	return v
 }
 
 func (cw *verifC14World) runProgram(c *verifC14Client, prog []verifC14Op) {
 	defer close(c.done)
+	atomic.StoreInt64(&c.goid, verifC14Goid())
 	for i, op := range prog {
 		c.opAt.Store(fmt.Sprintf("%d:%s:%s", i, op.K, op.T))
 		cs := c.cur
@@ -649,7 +668,7 @@ func verifC14GenProgram(rng *rand.Rand, cw *verifC14World, c *verifC14Client, to
 			prog = append(prog, verifC14Op{K: "sub", T: t}, verifC14Op{K: "leave", T: t}, verifC14Op{K: "sub", T: t, Nap: nap()})
 		case r < 92:
 			if strings.HasPrefix(t, "g") {
-				prog = append(prog, verifC14Op{K: "deltopic", T: t, Hard: rng.Intn(2) == 0, Nap: nap()})
+				prog = append(prog, verifC14Op{K: "deltopic", T: t, Hard: rng.Intn(5) != 0, Nap: nap()})
 			}
 		case r < 93:
 			if allowDelUser {
@@ -665,7 +684,6 @@ func verifC14GenProgram(rng *rand.Rand, cw *verifC14World, c *verifC14Client, to
 func verifC14Run(t *testing.T, run int, seed int64, rounds, opsPer int, seen map[int]bool) (rec map[string]any, hang bool) {
 	rng := rand.New(rand.NewSource(seed))
 	w := verifNewWorld(t, verifConfig{}, false)
-	memadp.Hook = nil
 	cw := &verifC14World{w: w, t: t, byPtr: map[*Session]*verifC14Sess{}, grp: map[string]string{}, grpRev: map[string]string{},
 		tokens: map[string]string{}, gone: map[string]bool{}}
 	rec = map[string]any{"run": run, "seed": seed, "err": ""}
@@ -728,11 +746,7 @@ func verifC14Run(t *testing.T, run int, seed int64, rounds, opsPer int, seen map
 	setupReq := func(cs *verifC14Sess, m map[string]any, id string) int {
 		b, _ := json.Marshal(m)
 		cs.vs.s.dispatchRaw(b)
-		c := waitReply(cs, id)
-		if err := w.quiesce(); err != nil {
-			return -1
-		}
-		return c
+		return waitReply(cs, id)
 	}
 	owner := map[string]string{"g1": "u1", "g2": "u2"}
 	ownerClient := map[string]int{"g1": 0, "g2": 2}
@@ -856,7 +870,7 @@ func verifC14Run(t *testing.T, run int, seed int64, rounds, opsPer int, seen map
 		switch {
 		case stage < 30: // subscribe races with the owner's {del topic}
 			rv := &verifC14RV{n: 2, ch: make(chan struct{})}
-			ins(oc, at, verifC14Op{K: "deltopic", T: g, Hard: rng.Intn(2) == 0, RV: rv})
+			ins(oc, at, verifC14Op{K: "deltopic", T: g, Hard: rng.Intn(5) != 0, RV: rv})
 			ins(oth, at, verifC14Op{K: "sub", T: g, RV: rv}, verifC14Op{K: []string{"leave", "sub", "pub", "disc"}[rng.Intn(4)], T: g}, verifC14Op{K: "reconn"})
 			if oth2 != oth {
 				ins(oth2, at, verifC14Op{K: "pub", T: g}, verifC14Op{K: "pub", T: g}, verifC14Op{K: "sub", T: g})
@@ -981,7 +995,7 @@ func verifC14Run(t *testing.T, run int, seed int64, rounds, opsPer int, seen map
 				case <-c.done:
 				default:
 					at, _ := c.opAt.Load().(string)
-					h := map[string]any{"client": c.idx, "op": at, "sess": "", "round": round}
+					h := map[string]any{"client": c.idx, "op": at, "sess": "", "round": round, "goid": atomic.LoadInt64(&c.goid)}
 					if c.cur != nil {
 						h["sess"] = c.cur.name
 						h["clean"] = atomic.LoadInt32(&c.cur.clean)
@@ -996,8 +1010,13 @@ func verifC14Run(t *testing.T, run int, seed int64, rounds, opsPer int, seen map
 		}
 		chaos.Wait()
 		// the readers of sessions whose write loop has gone notice the closed socket
-		if !hang {
+		{
 			for _, c := range clients {
+				select {
+				case <-c.done:
+				default:
+					continue // this client's reader is stuck inside the server
+				}
 				if cs := c.cur; cs != nil && cs.term() == "" {
 					// let a released writer reach its queue-limit check
 					if cs == victim {
@@ -1014,10 +1033,15 @@ func verifC14Run(t *testing.T, run int, seed int64, rounds, opsPer int, seen map
 		}
 		syncSess()
 		qerr := w.quiesce()
-		if qerr == nil && !hang {
+		if qerr == nil {
 			// evictions (account deletion) may have closed more sockets while quiescing
 			again := false
 			for _, c := range clients {
+				select {
+				case <-c.done:
+				default:
+					continue
+				}
 				if cs := c.cur; cs != nil && cs.term() == "" && cs.writerDone() {
 					cw.terminate(cs, "writer_exit")
 					again = true
